@@ -21,6 +21,7 @@ DOC = {
         'C19.R9': 'no semaphore of the library starts with zero permits: the count is a multiple of the real size of a thread pool (current_num_threads() >= 1), a max(.., 1), or a positive constant - never a configured size, where 0 means automatic',
         'C19.R8': 'no descriptor or thread escapes the budget: every helper thread of the library that can block (opens a path, waits for a child, reads a stream to the end) is joined - directly, or by the Drop of the struct that keeps its JoinHandle - while the resource it waits for is still there (the stderr reaper of a transform opens the $OUT pipe for writing; joined in Drop for Execution before the reading end is closed)',
         'C19.R7': 'the open-file budget is counted in the unit the permits are spent in: one permit is taken per hashing task, and a task of a --transform run holds several descriptors (input file, pipes to the child, temporary copy, named pipe) - the number of permits is (RLIMIT_NOFILE - reserve) divided by at least the number of descriptor-opening call sites of one transform execution, with no floor above 1',
+        'C19.R10': 'the directory walk spends the same budget: every std::fs::read_dir of the library, every call that takes the ReadDir and its drop lie in the region where a guard of RLIMIT_OPEN_FILES is live (the entries are collected under the permit, the visits of the children are spawned after it is released, so no holder waits for another task)',
         'C19.R6': 'no call path from a region holding an RLIMIT_OPEN_FILES guard re-acquires that semaphore',
     },
     'not_decided': 'the thread interleavings themselves (a model checker or loom would explore them); fairness; std::sync::Condvar/Mutex internals',
@@ -70,6 +71,7 @@ def run(ctx):
     r7(ctx)
     r8(ctx)
     r9(ctx)
+    r10(ctx)
 
 
 BLOCKING = r'OpenOptions::open$|^std::fs::File::open$|::wait$|::recv$|read_to_string$|read_to_end$|::lock$'
@@ -365,18 +367,39 @@ def indirect_targets(lib, b, c):
     return sorted(set(out))
 
 
+def acquires_rlimit(b):
+    out = []
+    for c in b.calls(r'semaphore::Semaphore::(access_owned|access|acquire)$'):
+        sl = backslice(b, [c.args[0]])
+        if any('RLIMIT_OPEN_FILES' in i for i in sl.items) or sl.has_call(r'RLIMIT_OPEN_FILES'):
+            out.append(c)
+    return out
+
+
+def held_region(b, c):
+    """blocks of b where the guard returned by the acquisition c is live: from the acquisition to the drop of the guard local
+    (or the end of the body if the guard is moved away - then the whole rest counts as held). Returns (held, drops)."""
+    gl = c.dest[0]
+    region = b.reachable(c.ret) if c.ret is not None else set()
+    drops = [x for x in region if b.blocks[x]['term']['k'] == 'drop' and b.blocks[x]['term']['p'][0] == gl]
+    # an explicit drop(guard) moves the guard into std::mem::drop
+    holders = forward_locals(b, gl)
+    for x in region:
+        k = b.call_at(x)
+        if k is not None and k.matches(r'^std::mem::drop$|^core::mem::drop$') and op_local(k.args[0]) in holders:
+            drops.append(x)
+    held = set()
+    for x in region:
+        if not drops or any(d in b.reachable(x) for d in drops):
+            held.add(x)
+    return held, drops
+
+
 def r6(ctx):
     rule = 'C19.R6'
     lib = ctx.lib
     cg = CallGraph([lib])
 
-    def acquires_rlimit(b):
-        out = []
-        for c in b.calls(r'semaphore::Semaphore::(access_owned|access|acquire)$'):
-            sl = backslice(b, [c.args[0]])
-            if any('RLIMIT_OPEN_FILES' in i for i in sl.items) or sl.has_call(r'RLIMIT_OPEN_FILES'):
-                out.append(c)
-        return out
     holders = []
     acquirers = set()
     for b in lib.bodies.values():
@@ -392,14 +415,7 @@ def r6(ctx):
     for b, c in holders:
         # region where the guard is live: from the acquisition to the drop of the guard local (or the end of the body
         # if the guard is moved away - then the holder is whoever receives it; handled by treating the whole rest as held)
-        gl = c.dest[0]
-        region = b.reachable(c.ret) if c.ret is not None else set()
-        drops = [x for x in region if b.blocks[x]['term']['k'] == 'drop' and b.blocks[x]['term']['p'][0] == gl]
-        held = set()
-        for x in region:
-            # x is in the held region if some drop of the guard is reachable from x (or there is no drop at all)
-            if not drops or any(d in b.reachable(x) for d in drops):
-                held.add(x)
+        held, drops = held_region(b, c)
         bad = []
         n_ind = 0
         for x in held:
@@ -486,3 +502,38 @@ def r7(ctx):
               'the semaphore has one permit per descriptor of the limit (divisor %s, floor %s) but a hashing task takes ONE permit and, with --transform, opens up to %d descriptors '
               '(%s): with `ulimit -n 256 --threads 64 --transform "cp $IN $OUT"` most files fail with EMFILE and silently drop out of the groups; a floor above 1 exceeds small limits by itself' % (
                   div, floors, need, ', '.join(sorted({c.path.rsplit('::', 1)[-1] for c in fd_sites}))))
+
+
+def r10(ctx):
+    """Directories are read under a permit as well: a thread that is inside read_dir / getdents keeps a descriptor open."""
+    rule = 'C19.R10'
+    lib = ctx.lib
+    n = 0
+    for p_, b in sorted(lib.bodies.items()):
+        if re.search(r'(^|::|<)tests?(::|$)', p_) or b.kind in ('const', 'static', 'promoted'):
+            continue
+        opens = b.calls(r'^std::fs::read_dir$')
+        if not opens:
+            continue
+        helds = [held_region(b, c)[0] for c in acquires_rlimit(b)]
+        held = set().union(*helds) if helds else set()
+        for c in opens:
+            n += 1
+            # every use of the open directory: calls that take a ReadDir (by value or by reference) and the drops of ReadDir places
+            users = []
+            for x, blk in enumerate(b.blocks):
+                k = b.call_at(x)
+                if k is not None and any('std::fs::ReadDir' in (b.local_ty(op_local(a)) or '') for a in k.args if op_local(a) is not None):
+                    users.append((x, k.path))
+                t = blk['term']
+                if t['k'] == 'drop' and 'std::fs::ReadDir' in (b.local_ty(t['p'][0]) or ''):
+                    users.append((x, 'drop'))
+            outside = [u for u in [(c.bb, 'std::fs::read_dir')] + users if u[0] not in held]
+            ctx.check(not outside, rule, '%s|directory-read-under-permit' % p_, c.where(),
+                      'the directory is opened, read (%d uses of the ReadDir) and closed while a permit of RLIMIT_OPEN_FILES is held' % len(users),
+                      'the directory opened here is %s: every thread of the walk that is inside visit_dir keeps one descriptor open, and their number is '
+                      'bounded by `--threads` only, not by the permits derived from RLIMIT_NOFILE - with more walker threads than descriptors (`ulimit -n 32`, `--threads 256`; many threads are what one configures for '
+                      'slow storage) read_dir fails with EMFILE, the sub-tree is left out with a warning and `group` exits 0 with a report that lacks those files' % (
+                          'not read under a permit of the open-file semaphore' if not held else 'used outside the region where the permit is held (%s)' % ', '.join(sorted({u[1].rsplit('::', 1)[-1] for u in outside}))))
+            ctx.fn(b)
+    ctx.floor(rule, 'read_dir sites in the library', n, 1)
